@@ -171,6 +171,8 @@ func predsOf(a *Anchor) []predEv {
 		return polyPreds5(a.K, a.x)
 	case "zeta5":
 		return zetaPreds5(a.x)
+	case "factorial5":
+		return []predEv{{"Factorial|x<factorialMax", float64(a.K), factMax5, 1, a.K < factMax5}}
 	case "sincospi":
 		return sinCosPreds(a.Fn, a.x)
 	case "igamma":
@@ -197,7 +199,8 @@ func predsOf(a *Anchor) []predEv {
 		return ev
 	case "trigamma":
 		if a.Fn != "Trigamma" {
-			return nil
+			// Polygamma(1, x) routes to Trigamma
+			return []predEv{{"Polygamma|n==0", 1, 0, 1, false}, {"Polygamma|n==1", 1, 1, 1, true}}
 		}
 		x := a.x
 		ev := []predEv{{"trigamma_imp|x<=0.0", x, 0, 0.5, x <= 0}}
